@@ -124,6 +124,7 @@ func populateLabels(lset labels.Labels, cfg *config.ScrapeConfig) (res, orig lab
 func targetsFromGroup(tg *targetgroup.Group, cfg *config.ScrapeConfig) ([]*SDTargets, error) {
 	targets := make([]*SDTargets, 0, len(tg.Targets))
 	exists := map[uint64]bool{}
+	var failure error
 
 	for i, tlset := range tg.Targets {
 		lbls := make([]labels.Label, 0, len(tlset)+len(tg.Labels))
@@ -141,7 +142,11 @@ func targetsFromGroup(tg *targetgroup.Group, cfg *config.ScrapeConfig) ([]*SDTar
 
 		lbls, origLabels, err := populateLabels(lset, cfg)
 		if err != nil {
-			return nil, errors.Wrapf(err, "instance %d in group %s", i, tg)
+			// same as prometheus: an invalid member is reported, the others are kept
+			if failure == nil {
+				failure = errors.Wrapf(err, "instance %d in group %s", i, tg)
+			}
+			continue
 		}
 
 		if lbls != nil || origLabels != nil {
@@ -161,7 +166,7 @@ func targetsFromGroup(tg *targetgroup.Group, cfg *config.ScrapeConfig) ([]*SDTar
 			})
 		}
 	}
-	return targets, nil
+	return targets, failure
 }
 
 func targetHash(lbls labels.Labels, url string) uint64 {
